@@ -3,8 +3,10 @@
    extracted from src/{biguint,bigint}/convert.rs under [prim_ok]) and are instantiated at the
    parameters of /repo's current source ([Extracted.prim], [InstPrim.prim_params_ok]).
    Floats are IEEE-754 bit patterns in Z (the harness prints the same patterns). *)
+From Coq Require Import Reals.
+From Flocq Require Import Core Round_odd.
 From BigNum Require Import Base BaseLemmas ShiftCore AddSub Prim SpecPrim
-  PrimProofsCast PrimProofs PrimProofsFloat PrimProofsToFloat PrimProofsFromFloat Extracted InstPrim.
+  PrimProofsCast PrimProofs PrimProofsFloat PrimProofsToFloat PrimProofsFromFloat PrimFlocq Extracted InstPrim.
 Open Scope Z_scope.
 
 (** ** big -> primitive integer: Some x exactly when x fits, all twelve types, MIN edges included *)
@@ -100,6 +102,20 @@ Theorem C08_from_f32_spec : forall g, 0 <= g < 2 ^ 32 ->
   ifrom_f32 g = Ret (option_map ienc (spec_ifrom_float 24 8 g)).
 Proof. intros; split; [apply ufrom_f32_spec|apply ifrom_f32_spec]; assumption. Qed.
 Print Assumptions C08_from_f32_spec.
+
+(** ** the Z-level rounding definitions are Flocq's (radix 2, unbounded exponent, precision p).
+    ONLY these two statements depend on the classical axioms of the real numbers
+    (sig_forall_dec, sig_not_dec, functional_extensionality_dep, classic — through Coq's Reals
+    and Flocq); every theorem above is closed under the global context. *)
+Theorem C08_rne_is_flocq_nearest_even : forall p n, (p = 53 \/ p = 24) -> 0 <= n ->
+  IZR (rne_val p n) = round radix2 (FLX_exp p) ZnearestE (IZR n).
+Proof. intros p n [-> | ->] H; apply rne_flocq; lia. Qed.
+Print Assumptions C08_rne_is_flocq_nearest_even.
+
+Theorem C08_rodd_is_flocq_round_odd : forall n, 0 <= n ->
+  IZR (rodd 64 n * 2 ^ Z.max 0 (blen n - 64)) = round radix2 (FLX_exp 64) Zrnd_odd (IZR n).
+Proof. intros n H; apply rodd_flocq; lia. Qed.
+Print Assumptions C08_rodd_is_flocq_round_odd.
 
 (* Non-vacuity: a canonical three-digit value whose deciding sticky bit sits in the lowest
    digit (the D6 pattern); i128::MIN through the BigInt edge; a failing TryFrom. *)
